@@ -28,7 +28,7 @@ import (
 func init() {
 	register(stream{
 		name: "token",
-		rule: "envelopes built by the harness itself (go-ipld-prime + libp2p, not go-ucan's envelope code) and offered to token.FromSealed / delegation.FromSealed / invocation.FromSealed and the DAG-JSON equivalents: (fields) every payload field of a valid delegation and invocation × {dropped, null, retyped to each IPLD kind, out-of-range, empty, malformed DID/command/policy/selector/pattern, short nonce} and an added unknown key, each CORRECTLY RE-SIGNED; (envelope) wrong, foreign or missing varsig header, extra SigPayload entry, extra outer element, swapped and unknown tags, signature by another key, truncated/empty/non-bytes signature, every payload field and the varsig header rewritten while KEEPING THE OLD SIGNATURE (after the genuine token was decoded), header variants with foreign hash/encoding/segments, a genuine and a forged token decoded from 8 goroutines at once; (bits) every single-bit flip of a sealed Ed25519 delegation and invocation; (values) every Go integer type at its boundary values through literal.Any (directly and nested), args.Add and meta.Add — stored exactly or rejected; (roundtrip) tokens from the constructors under every option combination × Ed25519/secp256k1/P-256/P-384/P-521 (RSA thorough) × {DAG-CBOR, DAG-JSON} × {generic, typed}. Compared: accept/reject and every decoded field. Added later: signatures of 257…65537 bytes (junk, padded, doubled); int64 extremes and pre-1970 instants in policy, arguments, metadata and time fields; round-trip option bits for instants at year 1/1000/1969, audience = subject and floats without fraction (the last is the open finding F-C07-dagjson-integral-float, in a class of its own); stream reads right after failed stream reads; a token naming issuer A but signed by B decoded while A's and B's keys are extracted concurrently (rounds bounded by time); ready-made IPLD nodes with out-of-range integers alone, in IPLD containers and in Go containers through Args.Add / literal.Any / WithArgument / WithMeta (kept ⇒ in range; seals ⇒ unseals); constructor well-formedness under unusual nonce options; command text assembled by New/Join stays refused, valid commands with empty segments are kept byte for byte. For EVERY key algorithm (RSA included) at every tier: signature of another key, empty, truncated, one-byte, junk and all-zero signatures, the genuine signature over a changed field, an empty varsig header, and a signature made over a non-canonical serialization that is shipped as such; the FromDagCbor / FromDagCborReader entry points (no canonical-form check of their own) on the same bytes; instants exactly at the Unix epoch in round trips. Round trips of an expiration in the last half second of the representable range and of argument sets merged twice over an earlier key. The well-formed varsig header of every OTHER supported key type in place of the issuer's, with the old signature and re-signed. Tokens built from a shared argument set answer GetNode for exactly their own arguments and their unsealed arguments Equal the original's. Commands held as converted strings or joined text (never parsed) come back from every decoder as they were sealed. delegation.Root with a WithSubject among the options (any position, undefined / foreign subject) returns a root token whose subject is its issuer. Non-trivial = all but the unmodified fixtures. Distinct = distinct protocol lines.",
+		rule: "envelopes built by the harness itself (go-ipld-prime + libp2p, not go-ucan's envelope code) and offered to token.FromSealed / delegation.FromSealed / invocation.FromSealed and the DAG-JSON equivalents: (fields) every payload field of a valid delegation and invocation × {dropped, null, retyped to each IPLD kind, out-of-range, empty, malformed DID/command/policy/selector/pattern, short nonce} and an added unknown key, each CORRECTLY RE-SIGNED; (envelope) wrong, foreign or missing varsig header, extra SigPayload entry, extra outer element, swapped and unknown tags, signature by another key, truncated/empty/non-bytes signature, every payload field and the varsig header rewritten while KEEPING THE OLD SIGNATURE (after the genuine token was decoded), header variants with foreign hash/encoding/segments, a genuine and a forged token decoded from 8 goroutines at once; (bits) every single-bit flip of a sealed Ed25519 delegation and invocation; (values) every Go integer type at its boundary values through literal.Any (directly and nested), args.Add and meta.Add — stored exactly or rejected; (roundtrip) tokens from the constructors under every option combination × Ed25519/secp256k1/P-256/P-384/P-521 (RSA thorough) × {DAG-CBOR, DAG-JSON} × {generic, typed}. Compared: accept/reject and every decoded field. Added later: signatures of 257…65537 bytes (junk, padded, doubled); int64 extremes and pre-1970 instants in policy, arguments, metadata and time fields; round-trip option bits for instants at year 1/1000/1969, audience = subject and floats without fraction (the last is the open finding F-C07-dagjson-integral-float, in a class of its own); stream reads right after failed stream reads; a token naming issuer A but signed by B decoded while A's and B's keys are extracted concurrently (rounds bounded by time); ready-made IPLD nodes with out-of-range integers alone, in IPLD containers and in Go containers through Args.Add / literal.Any / WithArgument / WithMeta (kept ⇒ in range; seals ⇒ unseals); constructor well-formedness under unusual nonce options; command text assembled by New/Join stays refused, valid commands with empty segments are kept byte for byte. For EVERY key algorithm (RSA included) at every tier: signature of another key, empty, truncated, one-byte, junk and all-zero signatures, the genuine signature over a changed field, an empty varsig header, and a signature made over a non-canonical serialization that is shipped as such; the FromDagCbor / FromDagCborReader entry points (no canonical-form check of their own) on the same bytes; instants exactly at the Unix epoch in round trips. Round trips of an expiration in the last half second of the representable range and of argument sets merged twice over an earlier key. The well-formed varsig header of every OTHER supported key type in place of the issuer's, with the old signature and re-signed. Tokens built from a shared argument set answer GetNode for exactly their own arguments and their unsealed arguments Equal the original's. Commands held as converted strings or joined text (never parsed) come back from every decoder as they were sealed. delegation.Root with a WithSubject among the options (any position, undefined / foreign subject) returns a root token whose subject is its issuer. Every header variant also signed over the DAG-JSON form of the SigPayload (the signed form is the DAG-CBOR one); numbers a caller holds as text (json.Number) through literal.Any / args.Add / meta.Add: a string equal to the text, the exact number, or a refusal. Non-trivial = all but the unmodified fixtures. Distinct = distinct protocol lines.",
 		run:  runTokenStream,
 		eval: evalToken,
 		cmp: func(line, g, m string) string {
@@ -383,6 +383,8 @@ func evalToken(line string) (out string, rd string) {
 		return cmdHistory(len(f) > 1 && f[1] == "1"), line
 	case "go.ctor.wf":
 		return ctorWellFormed(len(f) > 1 && f[1] == "1"), line
+	case "go.lit.textnum":
+		return literalTextNumbers(), line
 	case "go.lit.nodes":
 		return literalNodes(len(f) > 1 && f[1] == "1"), line
 	case "go.lit.exact":
@@ -616,6 +618,19 @@ func runTokenStream(c *ctx) error {
 				if b, err := sealText(sp, k.priv, nil, ""); err == nil {
 					c.emitSealed(all, b, "envelope:hdr-resigned:"+name)
 				}
+				// … and signed over the DAG-JSON form of the SigPayload (what a header that announces another encoding would ask
+				// for): the only signed form is the DAG-CBOR one
+				if spn, err := parseNode(sp); err == nil {
+					if js, err := ipld.Encode(spn, dagjson.Encode); err == nil {
+						overJSON := func([]byte) string {
+							sig, _ := k.priv.Sign(js)
+							return "b" + hxsRaw(string(sig))
+						}
+						if b, err := sealText(sp, k.priv, overJSON, ""); err == nil {
+							c.emitSealed(all, b, "envelope:hdr-json-signed:"+name)
+						}
+					}
+				}
 			}
 			c.emit(fmt.Sprintf("go.tok.concurrent %s %s", map[string]string{dlgTag: "dlg", invTag: "inv"}[kind.tag], alg), "token.envelope:sig-concurrent", true, "concurrent:"+alg)
 			// (bits) every single-bit flip of the honest sealed bytes
@@ -642,6 +657,7 @@ func runTokenStream(c *ctx) error {
 	}
 	c.emit("go.cmd.history 0", "literal.exact", true, "cmd-history")
 	c.emit("go.lit.nodes 0", "literal.exact", true, "literal-nodes")
+	c.emit("go.lit.textnum 0", "literal.exact", true, "literal-text-numbers")
 	c.emit("go.ctor.wf 0", "literal.exact", true, "ctor-wellformed")
 	// the same two checks again under the round-trip class: "seals but does not unseal" is a C07 matter as well
 	c.emit("go.lit.nodes 1", "token.roundtrip-nodes", true, "literal-nodes")
